@@ -439,7 +439,105 @@ class Access:
         return self.out
 
 
-def translate(src):
+# ------------------------------------------------------------------ random streams (determinism, S4)
+
+def _np_random_attr(n):
+    """np.random.<X> -> X"""
+    if (isinstance(n, ast.Attribute) and isinstance(n.value, ast.Attribute) and n.value.attr == "random"
+            and isinstance(n.value.value, ast.Name) and n.value.value.id in ("np", "numpy")):
+        return n.attr
+    return None
+
+
+def random_uses(modname, src):
+    """Every use of a NumPy random stream in the module, classified: SeededGlobal (np.random.<draw> right
+    after np.random.seed(<literal>) in the same block), SeededLocal (RandomState() whose next statement
+    seeds it from a literal or from the data), Unseeded otherwise."""
+    tree = ast.parse(src)
+    for n in ast.walk(tree):
+        if isinstance(n, (ast.Import, ast.ImportFrom)):
+            mods = [a.name for a in n.names] + ([n.module] if isinstance(n, ast.ImportFrom) and n.module else [])
+            for m in mods:
+                if m.split(".")[0] in ("random", "time", "secrets", "uuid", "os", "datetime"):
+                    raise Untranslatable("%s imports %s: not covered by the determinism analysis" % (modname, m))
+    out = []
+
+    def clean_seed_arg(a):
+        for n in ast.walk(a):
+            if isinstance(n, ast.Name) and n.id in ("time", "os", "random", "id", "hash", "object"):
+                return False
+            if _np_random_attr(n):
+                return False
+        return True
+
+    def block(fname, stmts):
+        seeded = False
+        for i, st in enumerate(stmts):
+            own = [st] if not isinstance(st, (ast.If, ast.For, ast.While)) else (
+                [st.test] if isinstance(st, (ast.If, ast.While)) else [st.iter])
+            for root in own:
+                for n in ast.walk(root):
+                    x = _np_random_attr(n)
+                    if x is None:
+                        continue
+                    call = None
+                    for m in ast.walk(root):
+                        if isinstance(m, ast.Call) and m.func is n:
+                            call = m
+                    text = ast.get_source_segment(src, st) or x
+                    if x == "seed":
+                        if (call is not None and len(call.args) == 1 and isinstance(call.args[0], ast.Constant)
+                                and isinstance(call.args[0].value, int) and isinstance(st, ast.Expr)):
+                            seeded = True
+                        else:
+                            out.append((fname, "Unseeded %s" % coq_string(text)))
+                    elif x == "RandomState":
+                        ok = False
+                        if (call is not None and not call.args and not call.keywords and isinstance(st, ast.Assign)
+                                and len(st.targets) == 1 and isinstance(st.targets[0], ast.Name)
+                                and st.value is call and i + 1 < len(stmts)):
+                            nm = st.targets[0].id
+                            nx = stmts[i + 1]
+                            if (isinstance(nx, ast.Expr) and isinstance(nx.value, ast.Call)
+                                    and isinstance(nx.value.func, ast.Attribute) and nx.value.func.attr == "seed"
+                                    and isinstance(nx.value.func.value, ast.Name) and nx.value.func.value.id == nm
+                                    and len(nx.value.args) == 1 and clean_seed_arg(nx.value.args[0])):
+                                ok = True
+                        elif (call is not None and len(call.args) == 1 and isinstance(call.args[0], ast.Constant)
+                              and isinstance(call.args[0].value, int)):
+                            ok = True
+                        out.append((fname, "SeededLocal" if ok else "Unseeded %s" % coq_string(text)))
+                    else:
+                        out.append((fname, "SeededGlobal" if seeded else "Unseeded %s" % coq_string(text)))
+            if isinstance(st, (ast.If, ast.For, ast.While)):
+                block(fname, st.body)
+                block(fname, st.orelse)
+                seeded = False
+            elif isinstance(st, (ast.With, ast.Try, ast.FunctionDef, ast.ClassDef)):
+                for n in ast.walk(st):
+                    if _np_random_attr(n):
+                        out.append((fname, "Unseeded %s" % coq_string("inside " + type(st).__name__)))
+            elif not (isinstance(st, ast.Expr) and seeded):
+                # a draw must directly follow its seed: any other statement in between ends the guarantee
+                if not any(_np_random_attr(n) == "seed" for n in ast.walk(st)):
+                    seeded = False if not any(_np_random_attr(n) for n in ast.walk(st)) else seeded
+
+    for fn in tree.body:
+        if isinstance(fn, ast.FunctionDef):
+            block("%s.%s" % (modname, fn.name), fn.body)
+        elif not isinstance(fn, (ast.Import, ast.ImportFrom, ast.Assign, ast.Expr)):
+            for n in ast.walk(fn):
+                if _np_random_attr(n):
+                    out.append((modname, "Unseeded %s" % coq_string("module level")))
+    for st in tree.body:
+        if isinstance(st, (ast.Assign, ast.Expr)):
+            for n in ast.walk(st):
+                if _np_random_attr(n):
+                    out.append((modname, "Unseeded %s" % coq_string("module level")))
+    return out
+
+
+def translate(src, smooth_src=None, otsu_src=None):
     tree = ast.parse(src)
     fns = {n.name: n for n in tree.body if isinstance(n, ast.FunctionDef)}
     if "get_threshold" not in fns:
@@ -491,10 +589,19 @@ def translate(src):
         "  [" + "; ".join(coq_string(d) for d in disp) + "].",
         "",
     ]
+    if smooth_src is not None and otsu_src is not None:
+        uses = random_uses("threshold", src) + random_uses("smooth", smooth_src) + random_uses("otsu", otsu_src)
+        lines += [
+            "(* every use of a NumPy random stream in threshold.py, smooth.py, otsu.py *)",
+            "Definition threshold_random_uses : list (string * rand_use) :=",
+            "  [" + ";\n   ".join("(%s, %s)" % (coq_string(f), u) for f, u in uses) + "].",
+            "",
+        ]
     return "\n".join(lines)
 
 
 if __name__ == "__main__":
     import sys
-    with open(sys.argv[1] if len(sys.argv) > 1 else "/repo/centrosome/threshold.py") as f:
-        sys.stdout.write(translate(f.read()))
+    root = sys.argv[1] if len(sys.argv) > 1 else "/repo/centrosome"
+    srcs = [open(root + "/" + n).read() for n in ("threshold.py", "smooth.py", "otsu.py")]
+    sys.stdout.write(translate(*srcs))
